@@ -370,7 +370,7 @@ def _make_simlink_class():
             if j in w.net.lose_rep:
                 return
             if delay is None:
-                delay = w.net.delays[j] if j < len(w.net.delays) else w.net.default_delay
+                delay = w.net.delays[j % len(w.net.delays)] if w.net.delays else w.net.default_delay
             self.seq += 1
             heapq.heappush(self.pending, (s.now + delay, self.seq, rep, guard))
             while self.wakeup.waiters:
